@@ -63,6 +63,21 @@ def cases(tier, variants):
         for c in F.convex_cases(2, variants, (3,), fams=("qp",), hesses=("rot2",)):
             for ji, si in ((0, 0), (0, 1), (1, 0), (1, 1), (2, 0)):
                 yield dict(c, part="cvx", jac=ji, step=si, shift=sh)
+    # ... and by 1e6: the box sides are then thin relative to the variables (width/|x| ~
+    # 3e-6) without being degenerate
+    for c in F.convex_cases(2, variants, (3,), fams=("qp",), hesses=("rot2",),
+                            boxes=("box", "lo")):
+        for ji in range(4):
+            yield dict(c, part="cvx", jac=ji, step=0, shift=1e6)
+    # the package's own convex benchmark functions in a box with active bounds, every
+    # mode against the run with the packaged exact gradient
+    for v in variants:
+        for fam in ("sphere", "quartic"):
+            for n in (2, 3):
+                for start in ("in", "face", "vertex"):
+                    for ji in range(4):
+                        yield dict(part="bench", kind="nonconvex", fam=fam, n=n, box="box",
+                                   start=start, var=v, maxcor=3, jac=ji, step=0)
     if tier == "thorough":
         for v in variants:
             for fam in F.NONCONVEX:
@@ -141,6 +156,13 @@ def run(case):
                       calls=obs.nf))
     x = np.asarray(res.x, float)
     onb = bool(np.any((p.x0 <= p.lb) | (p.x0 >= p.ub)) or np.any((x <= p.lb) | (x >= p.ub)))
+    if case["part"] == "bench":
+        ex = minimize_lbfgsb(x0=p.x0.copy(), fun=p.f, jac=p.g, **kw)
+        fe, ff = float(p.f(np.asarray(ex.x, float))), float(p.f(x))
+        if not abs(ff - fe) <= 1e-6 * (1.0 + abs(fe)):
+            viol.append(V("objective_value_differs_from_exact_gradient_solution", f_fd=ff,
+                          f_exact=fe, threshold=1e-6 * (1.0 + abs(fe)), msg_fd=str(res.message),
+                          msg_exact=str(ex.message)))
     if case["part"] == "cvx" and step != 0.3:
         ex = minimize_lbfgsb(x0=p.x0.copy(), fun=p.f, jac=p.g, **kw)
         fe, ff = float(p.f(np.asarray(ex.x, float))), float(p.f(x))
